@@ -310,6 +310,7 @@ func (e *Env) base() {
 	e.Axiom("(forall ((a Str) (b Str) (i Int)) (! (= (sat (scat a b) i) (ite (< i (slen a)) (sat a i) (sat b (- i (slen a))))) :pattern ((sat (scat a b) i))))")
 	e.Axiom("(forall ((s Str) (a Int) (b Int)) (! (=> (and (<= 0 a) (<= a b) (<= b (slen s))) (= (slen (ssub s a b)) (- b a))) :pattern ((ssub s a b))))")
 	e.Axiom("(forall ((s Str) (a Int) (b Int) (i Int)) (! (=> (and (<= 0 a) (<= a b) (<= b (slen s)) (<= 0 i) (< i (- b a))) (= (sat (ssub s a b) i) (sat s (+ a i)))) :pattern ((sat (ssub s a b) i))))")
+	e.Axiom("(forall ((s Str) (a Int) (b Int) (k Int)) (! (=> (and (<= 0 a) (<= a k) (< k b) (<= b (slen s))) (= (sat (ssub s a b) (- k a)) (sat s k))) :pattern ((ssub s a b) (sat s k))))")
 	e.Axiom("(forall ((s Str)) (! (= (ssub s 0 (slen s)) s) :pattern ((slen s))))")
 	e.Axiom("(forall ((s Str) (a Int)) (! (= (ssub s a a) str_empty) :pattern ((ssub s a a))))")
 	e.Axiom("(forall ((s Str) (a Int) (b Int) (c Int) (d Int)) (! (=> (and (<= 0 a) (<= a b) (<= b (slen s)) (<= 0 c) (<= c d) (<= d (- b a))) (= (ssub (ssub s a b) c d) (ssub s (+ a c) (+ a d)))) :pattern ((ssub (ssub s a b) c d))))")
@@ -357,6 +358,7 @@ func (e *Env) needCh() {
 	e.DeclFun("ch", []Sort{SInt}, SStr)
 	e.Axiom("(forall ((c Int)) (! (=> (and (<= 0 c) (<= c 255)) (and (= (slen (ch c)) 1) (= (sat (ch c) 0) c))) :pattern ((ch c))))")
 	e.Axiom("(forall ((s Str)) (! (=> (= (slen s) 1) (= s (ch (sat s 0)))) :pattern ((sat s 0))))")
+	e.Axiom("(forall ((s Str) (a Int) (b Int)) (! (=> (and (= b (+ a 1)) (<= 0 a) (<= b (slen s))) (= (ssub s a b) (ch (sat s a)))) :pattern ((ssub s a b))))")
 }
 
 func truncate(s string, n int) string {
